@@ -31,7 +31,10 @@ for p in props:
         "engine": "lean4+correspondence",
         "level_claimed": {"category": "proof", "text": text, "design_ref": f"DESIGN.md section 6, {pid}"},
         "level_note": meta.get('level_note') or ("Trusted: Lean kernel and the three standard axioms; the hand-written model's faithfulness is established only by the correspondence suites (sampled unless marked exhaustive in evidence); harness and canonicalisation; " + "; ".join(meta.get('trusted_base', []))),
-        "technique": meta.get('technique', "Lean 4 proof over executable model + model/code correspondence + direct-oracle failing-input search"),
+        "technique": meta.get('technique', ("Lean 4 proof over executable model + Lean definitions regenerated from the Python source on every run (translator) with "
+                                             "kernel-checked agreement theorems + model/code correspondence + direct-oracle failing-input search")
+                              if any("GenAgree" in m for m in meta.get("proof_modules", []))
+                              else "Lean 4 proof over executable model + model/code correspondence + direct-oracle failing-input search"),
     })
 man = {
     "version": 1,
@@ -42,7 +45,13 @@ man = {
     "engines": [{"name": "lean4+correspondence", "path": "lean/ harness/", "serves_properties": [c['property_id'] for c in checks],
                  "kind_free_text": "Lean 4 library (model + theorems) with compiled line-protocol driver; Python harness running the real code in-process"}],
     "checks": checks,
-    "notes": "Exit 2 from ./check means an infrastructure failure of the harness, never a violation. known_findings.json is read-only at run time.",
+    "notes": "Exit 2 from ./check means an infrastructure failure of the harness, never a violation. known_findings.json is read-only at run time. "
+             "Every check has two ties to /repo's working tree: the sampled/exhaustive correspondence through the line protocol (all 20 properties) and, "
+             "for the properties whose technique field says so, Lean definitions regenerated from the Python source by tools/py2lean.py on every run with "
+             "kernel-checked agreement theorems (lean/PyodaProofs/GenAgree*.lean). A broken proof, tie or correspondence triggers the failing-input search "
+             "of the direct oracles; when none is found the VIOLATION line ends with no-failing-input-found and the replay names the theorem or suite. "
+             "PYODA_REPO=<dir> points a check at another tree (seeded changes: tools/try_mutant.sh). Repairs of genuine defects are the `fix:` commits of /repo "
+             "(DESIGN.md 12.2); DESIGN.md 12.4 lists every seeded change and which check catches it.",
     "not_applicable": na,
 }
 # lakefile default targets: the proof library (root imports only READY proof modules) + drivers of READY checks
